@@ -19,6 +19,15 @@ struct coord
 };
 
 static coord fin(long long k) { return coord{"fin", k, (long double) k / K}; }
+// the floating-point neighbour (in the numeric type of the run) just below / above k / K
+static coord nearby(long long k, bool below) { return coord{below ? "lo" : "hi", k, (long double) k / K}; }
+template <typename T> static T value_of(coord const& c, int e)
+{
+    T v = c.tag != "nan" && c.tag != "+inf" && c.tag != "-inf" && std::fabs(c.v) < 1e18L ? (T) std::ldexp(c.v, e) : (T) c.v;
+    if (c.tag == "lo") v = std::nextafter(v, -std::numeric_limits<T>::infinity());
+    if (c.tag == "hi") v = std::nextafter(v, std::numeric_limits<T>::infinity());
+    return v;
+}
 static coord far(long double v) { return coord{"fin", v > 0 ? 1000000000LL : -1000000000LL, v}; }
 static coord tagc(char const* t)
 {
@@ -49,8 +58,8 @@ static std::vector<long long> plist(binning const& b)
 template <typename T>
 static void fill1(binning const& b, coord const& x, coord const& y, int e)
 {
-    T xv = x.tag == "fin" && std::fabs(x.v) < 1e18L ? (T) std::ldexp(x.v, e) : (T) x.v;
-    T yv = y.tag == "fin" && std::fabs(y.v) < 1e18L ? (T) std::ldexp(y.v, e) : (T) y.v;
+    T xv = value_of<T>(x, e);
+    T yv = value_of<T>(y, e);
     bool twod = b.by != 0;
     auto fn = [&](hep::mc_point<T> const&, hep::projector<T>& pr) {
         if (twod) pr.add(0, xv, yv, T(1)); else pr.add(0, xv, T(1));
@@ -87,11 +96,14 @@ static void fill1_family(vt::rng& g, bool thorough)
                     std::vector<coord> xs;
                     for (long long k = -8; k <= 4 * bx + 8; ++k) xs.push_back(fin(b.xmin + k * b.sx / 4));
                     xs.push_back(tagc("nan")); xs.push_back(tagc("+inf")); xs.push_back(tagc("-inf"));
+                    // the floating-point neighbours of every edge, in particular of the two ends of the range
+                    for (long long j = 0; j <= bx; ++j) { xs.push_back(nearby(b.xmin + j * b.sx, true)); xs.push_back(nearby(b.xmin + j * b.sx, false)); }
                     xs.push_back(far(1e30L)); xs.push_back(far(-1e30L)); xs.push_back(far(1.8446744073709552e19L)); xs.push_back(far(9.3e18L));
                     std::vector<coord> ys{fin(b.ymin + b.sy / 2)};
                     if (by != 0)
                     {
                         ys.push_back(fin(b.ymin)); ys.push_back(fin(b.ymin + b.by * b.sy)); ys.push_back(fin(b.ymin + b.sy));
+                        ys.push_back(nearby(b.ymin + b.by * b.sy, true)); ys.push_back(nearby(b.ymin, false));
                         ys.push_back(fin(b.ymin - b.sy / 4)); ys.push_back(tagc("nan")); ys.push_back(far(1e30L)); ys.push_back(tagc("+inf"));
                     }
                     for (auto const& x : xs)
@@ -142,6 +154,7 @@ static void multi_run(int run, int kind, vt::rng& g)
                     case 2: return fin(mn + bins * sz + 1 + (long long) g.below(3));             // just above
                     case 3: { static char const* t[3] = {"nan", "+inf", "-inf"}; return tagc(t[g.below(3)]); }
                     case 4: return far(g.below(2) ? 1e30L : -1e30L);
+                    case 5: return g.below(2) ? nearby(mn + bins * sz, true) : nearby(mn, false);     // the neighbours of the two ends, inside the range
                     default: { long long k = mn + (long long) g.below((unsigned) (bins * sz)); if ((k - mn) % sz == 0) ++k; return fin(k); } // interior
                     }
                 };
@@ -158,7 +171,7 @@ static void multi_run(int run, int kind, vt::rng& g)
         {
             T v = fs.vnan ? std::numeric_limits<T>::quiet_NaN() : T(fs.v);
             binning const& b = ds[(std::size_t) fs.dist];
-            if (b.by) pr.add((std::size_t) fs.dist, (T) fs.x.v, (T) fs.y.v, v); else pr.add((std::size_t) fs.dist, (T) fs.x.v, v);
+            if (b.by) pr.add((std::size_t) fs.dist, value_of<T>(fs.x, 0), value_of<T>(fs.y, 0), v); else pr.add((std::size_t) fs.dist, value_of<T>(fs.x, 0), v);
             // value * weight on scale 4
             bool fin = !fs.vnan && std::isfinite(T(fs.v) * weight);
             vt::ev("Fill").i("dist", fs.dist).s("xt", fs.x.tag).i("x", fs.x.k).s("yt", fs.y.tag).i("y", fs.y.k)
